@@ -213,6 +213,46 @@ func genPoolMain(seed uint64, n int) int {
 		slot--
 		big++
 	}
+	// ... and one verification and one signature over a message of 64 KiB or
+	// more: size thresholds inside the library (a goroutine for long messages,
+	// hashing in pieces) are not reached by ordinary lengths
+	haveBigV, haveBigS := false, false
+	for _, op := range ops {
+		if (op.Fn == "Verify" || op.Fn == "VerifyOpts") && op.E != nil && op.E.ML >= 65536 {
+			haveBigV = true
+		}
+		if (op.Fn == "Sign" || op.Fn == "PrivSign") && op.ML >= 65536 {
+			haveBigS = true
+		}
+	}
+	for k := 0; (!haveBigV || !haveBigS) && k < 4000 && slot >= 0; k++ {
+		op := genPoolOp(NewRng(seed, lbl("pool-fill"), lbl("long-message"), uint64(k)))
+		isV := (op.Fn == "Verify" || op.Fn == "VerifyOpts") && op.E != nil && op.KL == 0 && op.SL == 0
+		isS := (op.Fn == "Sign" || op.Fn == "PrivSign") && op.KL == 0 && op.Opt.Hash != 1
+		if !(isV && !haveBigV) && !(isS && !haveBigS) {
+			continue
+		}
+		cnt := 0
+		for _, o := range ops {
+			if o.Fn == ops[slot].Fn {
+				cnt++
+			}
+		}
+		if cnt <= 2 || (ops[slot].Fn == "VerifyBatch" && len(ops[slot].Entries) >= 132) {
+			slot--
+			continue
+		}
+		big := []int{65537, 70001, 131073}[k%3]
+		if isV {
+			op.E.ML = big
+			haveBigV = true
+		} else {
+			op.ML = big
+			haveBigS = true
+		}
+		ops[slot] = op
+		slot--
+	}
 	b, _ := json.Marshal(ops)
 	os.Stdout.Write(append(b, '\n'))
 	return 0
